@@ -25,6 +25,34 @@ class ObResult:
         return d
 
 
+def uuid_freshness(fresh_consts, formulas):
+    """uuid4() returns a value that occurs nowhere in the input: distinct from every UUID-sorted term of the query
+    that is not built from a fresh uuid (modelling assumption, DESIGN 2.1)"""
+    if not fresh_consts:
+        return []
+    from .inst import ground_terms
+    srt = fresh_consts[0].sort()
+    ids = {c.get_id() for c in fresh_consts}
+
+    def uses_fresh(t):
+        stack = [t]
+        while stack:
+            x = stack.pop()
+            if x.get_id() in ids:
+                return True
+            stack.extend(x.children())
+        return False
+    out = []
+    terms = ground_terms(formulas, {srt}).get(srt, [])
+    for i_, c in enumerate(fresh_consts):
+        for t in terms:
+            if not uses_fresh(t):
+                out.append(c != t)
+        for d in fresh_consts[i_ + 1:]:
+            out.append(c != d)
+    return out
+
+
 def _ematch(hyps, g, axioms, timeout_ms):
     se = z3.Solver()
     se.set("timeout", min(timeout_ms, 4000))
@@ -258,6 +286,7 @@ def verify_function(ex, key, timeout_ms=10000, extra_pre=()):
         ret_ty = spec.ret_ty(ex) if getattr(spec, "report_type", None) is None else None
         ex.cur_key = key
         ex.obligations = []
+        ex.fresh_uuids = []
         ex.iface_used = set()
         n0 = ex.solver_calls
         fv = FuncV(fn, modpath, cls=cls, key=key) if closure_fv is None else closure_fv
@@ -306,7 +335,9 @@ def verify_function(ex, key, timeout_ms=10000, extra_pre=()):
                 if isinstance(goal, bool) and goal:
                     rep.results.append(ObResult(f"{key}.{c.name}.path{i}", "ensures", "proved", "trivial", 0.0, c.props))
                     continue
-                status, be, secs, mt, m = solve(list(out.st.hyps) + links + lem + _cm.take_links(), z3_bool(goal), axioms, timeout_ms)
+                hy = list(out.st.hyps) + links + lem + _cm.take_links()
+                hy += uuid_freshness(ex.fresh_uuids, hy + [z3_bool(goal)])
+                status, be, secs, mt, m = solve(hy, z3_bool(goal), axioms, timeout_ms)
                 rep.results.append(ObResult(f"{key}.{c.name}.path{i}", "ensures", status, be, secs, c.props, model=mt,
                                             meta={"z3model": m, "args": args, "result": res, "path": i}))
             if len(rep.path_samples) < 3:
